@@ -4,8 +4,23 @@
 package leanhelix
 
 import (
+	"sync"
+
 	"github.com/orbs-network/lean-helix-go/services/interfaces"
 )
+
+var verifPanicObservers sync.Map // *WorkerLoop -> func(interface{})
+
+// VerifObserveRecoveredPanics registers an observer for panics that handleRawMessage recovers from.
+func (lh *WorkerLoop) VerifObserveRecoveredPanics(f func(r interface{})) {
+	verifPanicObservers.Store(lh, f)
+}
+
+func verifRecovered(lh *WorkerLoop, r interface{}) {
+	if f, ok := verifPanicObservers.Load(lh); ok {
+		f.(func(interface{}))(r)
+	}
+}
 
 // Synchronous, single-threaded entry points into the worker loop for the
 // verification harness (build tag "verif"). Each one runs the body of the
